@@ -1085,12 +1085,15 @@ class FortranFile:
 
         # Check for single line edit
         if (start_line == end_line) and (len(text_split) == 1):
+            # The line as it was matters as much as the line as it is now: a
+            # definition turned into a comment has to leave the index
+            reparse_before = check_change_reparse(start_line)
             prev_line = self.contents_split[start_line]
             self.contents_split[start_line] = (
                 prev_line[:start_col] + text + prev_line[end_col:]
             )
             self.contents_pp[start_line] = self.contents_split[start_line]
-            return check_change_reparse(start_line)
+            return check_change_reparse(start_line) or reparse_before
 
         # Apply standard change to document
         new_contents = []
